@@ -119,7 +119,7 @@ var gatePoints = map[string]bool{
 	"lookup.lock": true, "get.lock": true, "get.recv": true, "get.woken": true, "get.read2": true,
 	"age.lock": true, "cab.lock": true, "cab.send": true, "cab.save": true,
 	"hfp.lock": true, "hfp.send": true, "hfp.save": true,
-	"purge.lock": true, "purge.fence": true, "purge.delete": true, "req.end": true,
+	"store.set": true, "purge.lock": true, "purge.fence": true, "purge.delete": true, "req.end": true,
 	"next": true, "upstream": true,
 }
 
@@ -1011,6 +1011,8 @@ func (s *MemStore) Set(key []byte, data []byte, ttl time.Duration) error {
 	if s.isDead() {
 		return errInjected
 	}
+	// the store has been handed the bytes but has not consumed them yet
+	s.w.S.Point("store.set")
 	s.mu.Lock()
 	defer s.mu.Unlock()
 	k := string(key)
